@@ -210,3 +210,18 @@ class PathMode(vlib.Mode):
 
     def describe(self, case):
         return ["route " + repr(vlib.unhx(l.split(" ")[1]).decode("utf-8", "replace")) for l in case]
+
+
+class GenHubMode(HubMode):
+    """the same histories; the model side is the Lean TRANSLATION of Hub.run's select cases and Hub.remove (Relay/Extracted/GenCrossbar.lean,
+    with the translated cancel-channel store inside) plus the bounded queues as environment — not the hand model"""
+    name = "genhub"
+    impl_mode = "hub"
+    model_mode = "genhub"
+
+    def generate(self, rng, tier):
+        cases = HubMode.generate(self, rng, tier)
+        return cases[:len(cases) // 3]
+
+    def corpus(self):
+        return HubMode(self.focus).corpus()
